@@ -244,6 +244,23 @@ CLAIMED['C10'] = dict(
     technique="index-domain (units-of-measure) inference over array value domains with alias resolution, statement-successor and decision-table rules, call-argument grouping and stage-set comparison between sibling solve variants over the clang-resolved AST",
     ref="DESIGN.md section 4, C10")
 
+# rules added late in the build (rules/late.py, rules/shapes.py): one sentence per property, appended to the level text
+LATE = {
+    'C01': "Added late: a loop over basis positions never reads colStatus(i)/rowStatus(i) with the position (R01.7).",
+    'C02': "Added late: test() and coTest() of the entering simplex handle the same nonbasic statuses (R02.7).",
+    'C03': "Added late: reduced-cost sign and lifted entries (R03.8-R03.10); no array re-sized twice in a row and each basis status array re-sized to a count of its own kind (R03.11).",
+    'C04': "Added late: after reloading the LP into the solver the stored basis is loaded again (R04.7); SPxSolverBase::status() consults the basis status before reporting OPTIMAL (R04.8).",
+    'C07': "Added late: areLPsInSync() reads through the unscaled accessors (R07.11); no rational reaches the floating-point LP through mpq_get_d (R07.12); sense and offset re-applied wherever an LP is cleared or created (R07.13).",
+    'C09': "Added late: bounds and sides are scaled / unscaled only under a test against infinity (R09.9, R09.10); scaleExp grows with the side / bound arrays (R09.11); with persistent scaling off a scaled LP is unscaled before the solve (R09.12).",
+    'C10': "Added late: arrays indexed by l.startSize are re-allocated together (R10.5).",
+    'C11': "Added late: co-sized arrays (R11.6), fill-ins queued once (R11.7), a factorization whose status is not OK is discarded before computeBasisInverseRational() returns (R11.8).",
+    'C16': "Added late: every terminal arm of _evaluateResult() clears the row objectives of the refined LP (R16.7); the undo functions of the exact solver subscript the solution vectors only under a condition that says a solution exists (R16.8).",
+    'C17': "Added late: an array-of-pointers member copied verbatim is re-bound elementwise by the copy operation of the owning class (R17.12); nothing SoPlexBase::operator= executes after copying status and solution reaches _invalidateSolution() (R17.13); the owned rational LP is released on every path to its re-allocation (R17.14).",
+    'C19': "Added late: compound assignment operators (R19.9), key/number inverse maps (R19.10), copying a set of empty vectors (R19.11), no clear() after num was overwritten (R19.12).",
+    'C20': "Added late: every undo of an LP extension of the exact solver re-dimensions the solution vectors of the extended kind on every path, because the getters behind SoPlex_get*Real copy the whole vector into the caller's array (R20.7).",
+}
+SHAPES = " Generic shape rules S1-S11 (rules/shapes.py: infinity comparisons, position-or-minus-one tests, loop bounds, sparse position/index, mirror chains and mirror sibling functions, sense ternaries, comparators, row/column loop domains, argument selection) are reported under the property that owns the function."
+
 NA = {
 }
 
@@ -264,7 +281,7 @@ def main():
                 'evidence_file': 'evidence/%s.json' % pid,
                 'replay_cmd_template': './check %s --replay {path}' % pid,
                 'engine': 'spxfacts+spxrules',
-                'level_claimed': {'category': 'other', 'text': c['text'], 'design_ref': c['ref']},
+                'level_claimed': {'category': 'other', 'text': c['text'] + (' ' + LATE[pid] if pid in LATE else '') + SHAPES, 'design_ref': c['ref']},
                 'level_note': NOTE,
                 'technique': c['technique'],
             })
